@@ -604,7 +604,8 @@ def obj2bytes(obj):
     if isinstance(obj, str):
         return obj.encode("utf-8")
     elif isinstance(obj, (bool, int, float, np.bool_)):
-        return str(float(obj)).encode("utf-8")
+        # (adding 0.0 turns -0.0, which compares equal to 0.0, into 0.0)
+        return str(float(obj) + 0.0).encode("utf-8")
     elif obj is None:
         return b"none"
     elif isinstance(obj, np.ndarray):
